@@ -334,7 +334,19 @@ fn make_task(t: i64, kind: u8, work: u64, c: Arc<Counters>) -> impl FnOnce() + S
             _ => {}
         }
         if panics(kind) {
-            panic!("task {} panics", t);
+            // every kind of panic payload a task can produce (a recovery path that formats the payload must cope with all
+            // of them; added after the seeded change `C08-r5-recovery-thread-keeps-panic-message` - expect() on a
+            // non-string payload inside the recovery thread - was missed: all tasks panicked with a formatted String)
+            #[derive(Debug)]
+            struct TaskError(#[allow(dead_code)] i64);
+            match t.rem_euclid(6) {
+                0 => panic!("task {} panics", t),
+                1 => panic!("task panics"),
+                2 => std::panic::panic_any(TaskError(t)),
+                3 => std::panic::panic_any(404u16),
+                4 => std::panic::resume_unwind(Box::new(TaskError(t))),
+                _ => { let r: Result<(), TaskError> = Err(TaskError(t)); r.unwrap(); }
+            }
         }
         c.done[t as usize].fetch_add(1, Ordering::SeqCst);
         record("Task_End", t, 0);
